@@ -8,7 +8,9 @@ case kinds
       -> generate_multi_shift_rule
   {"kind": "process", "rule": [[num, den, num, den], ...]}      (exact rationals; dyadic in practice)
       -> process_shifts(array)
-Observation: {"status": "ok", "rule": [[...], ...], "solve_calls": k, "warned": bool} or {"status": "err", "type": ...}.
+Observation: {"status": "ok", "rule": [[...], ...], "solve_calls": k, "warned": bool, "periods": [...]} or
+{"status": "err", "type": ...}.  `periods` = the value of the real frequencies_to_period for every component
+differentiated to order >= 2 (the period _iterate_shift_rule wraps the shifts with), else null.
 `solve_calls` counts calls of the linear solver (the non-equidistant branch of _get_shift_rule); it is how
 the branch decision of the real code is observed.  Floats travel through JSON by repr (exact round trip).
 """
@@ -45,19 +47,31 @@ def tup(x):
     return None if x is None else tuple(x)
 
 
+def period_of(freqs, order):
+    if order is None or order < 2:
+        return None
+    try:
+        return float(G.frequencies_to_period(tuple(f for f in freqs if f > 0)))
+    except Exception:  # noqa: BLE001
+        return None
+
+
 out = []
 for c in json.load(sys.stdin)["cases"]:
     clear()
     _calls["n"] = 0
     singular = False
+    periods = None
     try:
         with warnings.catch_warnings(record=True) as wl:
             warnings.simplefilter("always")
             if c["kind"] == "single":
                 r = G.generate_shift_rule(tup(c["freqs"]), shifts=tup(c["shifts"]), order=c["order"])
+                periods = [period_of(c["freqs"], c["order"])]
             elif c["kind"] == "multi":
                 sh = None if c["shifts"] is None else [tup(s) for s in c["shifts"]]
                 r = G.generate_multi_shift_rule([tup(f) for f in c["freqs"]], shifts=sh, orders=c["orders"])
+                periods = [period_of(f, o) for f, o in zip(c["freqs"], c["orders"] or [1] * len(c["freqs"]))]
             else:
                 arr = np.array([[float(Fraction(a, b)), float(Fraction(p, q))] for a, b, p, q in c["rule"]],
                                dtype=float).reshape(-1, 2)
@@ -69,7 +83,7 @@ for c in json.load(sys.stdin)["cases"]:
             o = {"status": "err", "type": "nonfinite"}
         else:
             o = {"status": "ok", "rule": [[float(x) for x in row] for row in r.tolist()],
-                 "solve_calls": _calls["n"], "warned": bool(singular)}
+                 "solve_calls": _calls["n"], "warned": bool(singular), "periods": periods}
     except Exception as e:  # noqa: BLE001  (canonicalised to an error value)
         o = {"status": "err", "type": type(e).__name__, "solve_calls": _calls["n"]}
     out.append(o)
